@@ -33,6 +33,6 @@ int main(void) {
 		evaluated++;
 		if(r != 0 || pd.moved != hdr + 8 * len) { if(failed++ < 10) printf("VF-GRID: FAIL len=%zu bit-offset=%zu pattern=%d: return %d, consumed %zu bits of %zu\n", len, skip, pat, r, (size_t)pd.moved, hdr + 8 * len); }
 	}
-	printf("VF-GRID: evaluated %llu failed %llu\n", evaluated, failed);
+	printf("VF-GRID: evaluated %llu failed %llu\n", evaluated, failed); fflush(stdout);
 	return failed ? 1 : 0;
 }
